@@ -37,6 +37,20 @@ theorem OutInv.drop {o o' : Outgoing} (h : OutInv o) (n : Nat) (e1 : o'.inflight
   congr 2
   omega
 
+/-- the invariant speaks about packet ids, window length and `last_pkid` only: forgotten cursors
+    (UNSUBSCRIBE) do not matter -/
+theorem OutInv.forget {o o' : Outgoing} (h : OutInv o) (e1 : Forgets o.inflight o'.inflight)
+    (e2 : o'.lastPkid = o.lastPkid) : OutInv o' := by
+  obtain ⟨h1, h2, h3⟩ := h
+  refine ⟨by rw [e1.length]; exact h1, by rw [e2]; exact h2, fun k e hk => ?_⟩
+  obtain ⟨e0, hk0, he⟩ := e1.getElem? hk
+  rw [he.1, h3 _ _ hk0, e1.length, e2]
+
+/-- acknowledged entries leave at the front, the remaining ones may forget their cursor -/
+theorem OutInv.dropForget {o o' : Outgoing} (h : OutInv o) (n : Nat)
+    (e1 : Forgets (o.inflight.drop n) o'.inflight) (e2 : o'.lastPkid = o.lastPkid) : OutInv o' :=
+  OutInv.forget (o := { o with inflight := o.inflight.drop n }) (h.drop n rfl rfl) e1 e2
+
 /-- one more numbered publish, while there is room -/
 theorem OutInv.push {o : Outgoing} (h : OutInv o) (hroom : o.inflight.length < MAX_INFLIGHT) (fi : Nat)
     (cur : Option Cursor) :
